@@ -72,14 +72,6 @@ package oci
 //@   loop 2 invariant [kept] storeRI(s) && s.tagResolver == old(s.tagResolver) && s.graph == old(s.graph) && s.storage == old(s.storage) && s.AutoGC == old(s.AutoGC)
 //@   call append requires [C09:enqueue-untagged-only] forall i int :: 0 <= i && i < len(args.arg1) ==> !taggedNow(s, args.arg1[i])
 //@
-//@ pure height(d ocispec.Descriptor) mathint
-//@ axiom [merkle-height] forall d ocispec.Descriptor :: height(d) >= 0
-//@
-//@ func manifestutil.Subject
-//@   trusted
-//@   ensures [merkle-acyclic] result1 == nil && result0 != nil ==> height(*result0) < height(desc) && alive(result0)
-//@   modifies alloc, new ocispec.Descriptor.*, elems[byte]
-//@
 //@ func (*graph.Memory).IndexAll
 //@   trusted
 //@   requires [ri] graphRI(m)
@@ -90,8 +82,17 @@ package oci
 //@   ensures [C08:content-kept] result.Digest == desc.Digest && result.MediaType == desc.MediaType && result.Size == desc.Size
 //@   modifies alloc, new map[string]string
 //@
+//@ pure plainTag(refMap map[string]ocispec.Descriptor, r string) bool = r in refMap && (forall q string :: q in refMap ==> r != refMap[q].Digest)
 //@ func (*Store).gcIndex
 //@   requires [ri] storeRI(s)
+//@   loop 0 invariant [snapshot] refMap != nil && refMap != tagResolver.index && (forall r string :: (r in refMap) == old(r in s.tagResolver.index) && (r in refMap ==> refMap[r] == old(s.tagResolver.index[r])))
+//@   loop 0 invariant [C09:every-tag-kept] forall r string :: r in $visited && plainTag(refMap, r) ==> r in tagResolver.index && tagResolver.index[r] == refMap[r]
+//@   loop 1 invariant [snapshot] refMap != nil && refMap != tagResolver.index && (forall r string :: (r in refMap) == old(r in s.tagResolver.index) && (r in refMap ==> refMap[r] == old(s.tagResolver.index[r])))
+//@   loop 1 invariant [C09:every-tag-kept] forall r string :: plainTag(refMap, r) ==> r in tagResolver.index && tagResolver.index[r] == refMap[r]
+//@   loop 2 invariant [snapshot] refMap != nil && refMap != tagResolver.index && (forall r string :: (r in refMap) == old(r in s.tagResolver.index) && (r in refMap ==> refMap[r] == old(s.tagResolver.index[r])))
+//@   loop 2 invariant [C09:every-tag-kept] forall r string :: plainTag(refMap, r) ==> r in tagResolver.index && tagResolver.index[r] == refMap[r]
+//@   call Tag requires [aux:current-entry] ref in refMap && refMap[ref] == desc
+//@   ensures [C09:every-tag-kept] result == nil ==> (forall r string :: old(plainTag(s.tagResolver.index, r)) ==> r in s.tagResolver.index && s.tagResolver.index[r] == old(s.tagResolver.index[r]))
 //@   loop 0 invariant [ri] resolverRI(tagResolver) && graphRI(graph) && alive(tagResolver) && alive(graph) && tagged != nil && alive(tagged) && !isTagSetOf(tagResolver, tagged) && s.storage == old(s.storage)
 //@   loop 1 invariant [ri] resolverRI(tagResolver) && graphRI(graph) && alive(tagResolver) && alive(graph) && tagged != nil && alive(tagged) && !isTagSetOf(tagResolver, tagged) && s.storage == old(s.storage)
 //@   loop 2 invariant [ri] resolverRI(tagResolver) && graphRI(graph) && alive(tagResolver) && alive(graph) && tagged != nil && alive(tagged) && !isTagSetOf(tagResolver, tagged) && s.storage == old(s.storage) && subject != nil
